@@ -44,8 +44,8 @@ let zle a b = Z.leb a b
 let zeq a b = Z.eqb a b
 
 (* StrPatt.create + StrPatt.match: returns (start, end, captures) *)
-let ms_match (src : z list) (pat : z list) (plain : bool) (pos : z) : ((z * z) * (z * z) list) option =
-  let plain = if has_specials pat then plain else false in
+let ms_match ?(find = false) (src : z list) (pat : z list) (plain : bool) (pos : z) : ((z * z) * (z * z) list) option =
+  let plain = nl_use_plain pat plain find in
   let anchor = (not plain) && (match pat with c :: _ -> int_of_z c = 94 | [] -> false) in
   if zlt (zlen src) pos then None
   else if pat = [] then Some ((pos, pos), [])
@@ -90,7 +90,7 @@ let lua_find_aux ?(find = true) (src : z list) (pat : z list) (init : z) (plain 
   | None -> None
   | Some i0 ->
     (* str_find_aux: the plain search is taken by string.find only (explicit plain, or no special character) *)
-    if find && (plain || not (has_specials pat)) then
+    if lua_use_plain pat plain find then
       (match plain_find (nat_of_int (List.length src - int_of_z i0)) src pat i0 with
        | Some st -> Some ((st, Z.add st (zlen pat)), [])
        | None -> None)
@@ -141,7 +141,7 @@ let pattern_op (op : string) (s : int -> z list) (n : int -> z) : string =
     (match nl_find_init (n 2) (zlen src) with
      | None -> "0 0"
      | Some i0 ->
-       (match ms_match src pat (int_of_z (n 3) <> 0) i0 with
+       (match ms_match ~find:true src pat (int_of_z (n 3) <> 0) i0 with
         | Some ((st, e), caps) ->
           (* after 55bba64: an unfinished capture stops the program *)
           if List.exists (fun (_, cl) -> int_of_z cl = -1) caps then raise (PTrap "unfinished");
